@@ -479,7 +479,7 @@ impl RunResult {
 ///       2 = region around the final loads after all joins; 3 = region around main's own ops;
 ///       4 = skip_branch before main's ops; 5 = region around thread 1's ops;
 ///       6 = expect_explicit_explore + explore() right before the first spawn;
-///       7 = region around main's ops except the first one
+///       7 = region around main's ops except the first one; 8 = stop_exploring() as the very last call of the iteration
 pub fn run(p: &Prog, cfg: &Cfg) -> RunResult {
     struct Acc {
         outcomes: BTreeSet<Vec<u64>>,
@@ -590,6 +590,10 @@ pub fn run(p: &Prog, cfg: &Cfg) -> RunResult {
             }
             if ctrl == 2 {
                 loom::explore();
+            }
+            if ctrl == 8 {
+                // the iteration ends with exploration switched off (nothing is decided after this point)
+                loom::stop_exploring();
             }
             let lg = log.lock().unwrap();
             let order: Vec<(u8, u8)> = lg.iter().map(|e| (e.0, e.1)).collect();
